@@ -14,7 +14,7 @@ func init() {
 		Name:  "R-DISPATCH",
 		Props: []string{"C17", "C03", "C06"},
 		Min:   20,
-		Doc: "sender dispatch: (end-once) sendFileState.endSent is written only in markChunkDone/trySendEnd, set to true only under scheduleDone && inFlight == 0 && !endSent && !verifyPending, and from that point the function can only return true; " +
+		Doc: "sender dispatch: (end-once) sendFileState.endSent is written only in markChunkDone/trySendEnd, set to true only under scheduleDone && inFlight == 0 && !endSent && !verifyPending && !resendPending (a queued re-send must go out first: F20), and from that point the function can only return true; " +
 			"every call site of those two methods uses the result as the condition of an if whose true branch calls sendFileEnd(state) for the same state, and sendFileEnd is called nowhere else; writeFileEnd is only called by sendFileEnd; " +
 			"(begin-once) writeFileBegin has one call site, in activateNext, executed under schedMu and only after sched.Next returned ok; (cursor) nextChunk is only incremented, the index handed out is the pre-increment value, " +
 			"inFlight is incremented on exactly the paths that return ok=true and decremented only in markChunkDone, resendPending is cleared on the path that returns the re-send index; " +
@@ -59,6 +59,8 @@ func runDispatch(c *Ctx) {
 					return "not-endSent", false, true
 				case "verifyPending":
 					return "not-verifyPending", false, true
+				case "resendPending":
+					return "not-resendPending", false, true
 				}
 			}
 			if be, ok := ast.Unparen(e).(*ast.BinaryExpr); ok && (be.Op == token.EQL || be.Op == token.NEQ || be.Op == token.GTR) {
@@ -86,7 +88,7 @@ func runDispatch(c *Ctx) {
 				c.Bad(key+"/who-writes", as.Pos(), "endSent is reset: FileEnd can be emitted again")
 				return
 			}
-			for _, g := range []string{"scheduleDone", "inFlight==0", "not-endSent", "not-verifyPending"} {
+			for _, g := range []string{"scheduleDone", "inFlight==0", "not-endSent", "not-verifyPending", "not-resendPending"} {
 				c.Check(guard.Passed(f, r, g), key+"/guard/"+g, as.Pos(), "endSent=true only under "+g, "endSent is set on a path where "+g+" was not established: FileEnd can go out before all handed-out chunks were written / before verification was decided / a second time",
 					"facts here: "+strings.Join(guard.PassedList(f, r), ", "))
 			}
